@@ -113,6 +113,18 @@ def work(args):
         others = {'plane': ('PL', G.pt(3), G.dirv(2)), 'line': ('L', G.pt(3), G.dirv(2)), 'seg': ('S', G.pt(3), G.pt(3))}
         if others['seg'][1] == others['seg'][2]:
             others['seg'] = ('S', others['seg'][1], add(others['seg'][1], V(1, 1, 0)))
+        if k in ('G', 'B'):
+            # probes through features of the ORIGINAL position (stale cached edges / faces would be hit exactly there) ...
+            K0 = ('G', E.vertices_of(X0)) if k == 'G' else ('B', E.hull_faces(E.vertices_of(X0)))
+            fp, _ = G.body_feature_point(K0)
+            fq, _ = G.body_feature_point(K0)
+            far = G.pt(6)
+            if fp != far:
+                others['seg_old'] = ('S', fp, far)
+                others['hl_old'] = ('H', far, sub(fp, far))
+            if fq != fp:
+                others['line_old'] = ('L', fp, sub(fq, fp))
+        rec_coplanar = (k == 'G')
         rec = dict(X=X0, moves=moves, others=others, problems=[])
         try:
             obj = impl.build(X0)
@@ -126,13 +138,21 @@ def work(args):
                 total = add(total, mv)
                 X = translate(X0, total)
                 fresh = impl.build(X)
+                step_others = dict(others)
+                if rec_coplanar:
+                    # ... and probes lying IN the current carrier plane (edge-walking code paths)
+                    cyc = E.vertices_of(X)
+                    c0 = E.mean(cyc)
+                    a_, b_ = cyc[0], cyc[len(cyc) // 2]
+                    step_others['line_coplanar'] = ('L', add(a_, mul(F(1, 3), sub(cyc[1], a_))), sub(b_, a_))
+                    step_others['seg_coplanar'] = ('S', c0, add(c0, mul(F(3), sub(cyc[1], c0))))
                 pts = probes(G, X)
-                qf = queries(impl, fresh, X, others, pts)
+                qf = queries(impl, fresh, X, step_others, pts)
                 for who, o in (('receiver', obj), ('returned', ret)):
                     if type(o) is not type(fresh):
                         rec['problems'].append('step %d: %s is a %s' % (step + 1, who, type(o).__name__))
                         continue
-                    q = queries(impl, o, X, others, pts)
+                    q = queries(impl, o, X, step_others, pts)
                     bad = same_answers(q, qf)
                     if bad:
                         rec['problems'].append('step %d (moved by %s in total): %s differs from a fresh object in %s' % (step + 1, gen.tv(total), who, bad[:3]))
